@@ -439,6 +439,12 @@ class World:
             return self.make_record(ex, self.rec_classes[path], args, kwargs, e)
         if path in self.contracts:
             kc = self.contracts[path]
+            # a stub declared by the module of the function under proof is that proof's (assumed) view of the callee
+            root = getattr(ex, 'root_k', None) or ex.k
+            for st in getattr(self, 'stubs', {}).get(path, []):
+                if st.__module__ == root.__module__:
+                    kc = st
+                    break
             return self.call_contract(ex, kc, path, args, kwargs, e)
         if path in self.externs:
             return self.call_extern(ex, self.externs[path], path, args, kwargs, e)
